@@ -137,9 +137,42 @@ class SingleFieldSubscriptionsChecker(ValidationVisitor):
     root field.
     """
 
+    def __init__(self, schema, type_info):
+        super(SingleFieldSubscriptionsChecker, self).__init__(
+            schema, type_info
+        )
+        self._fragments = {}  # type: Dict[str, _ast.FragmentDefinition]
+
+    def enter_document(self, node):
+        for definition in node.definitions:
+            if isinstance(definition, _ast.FragmentDefinition):
+                self._fragments.setdefault(definition.name.value, definition)
+
+    def _response_names(self, selections, seen_fragments):
+        # Root fields are counted after fragments have been flattened and
+        # selections sharing a response name merged.
+        names = set()  # type: Set[str]
+        for selection in selections:
+            if isinstance(selection, _ast.Field):
+                names.add(selection.response_name)
+            elif isinstance(selection, _ast.InlineFragment):
+                names |= self._response_names(
+                    selection.selection_set.selections, seen_fragments
+                )
+            elif isinstance(selection, _ast.FragmentSpread):
+                name = selection.name.value
+                fragment = self._fragments.get(name)
+                if fragment is not None and name not in seen_fragments:
+                    seen_fragments.add(name)
+                    names |= self._response_names(
+                        fragment.selection_set.selections, seen_fragments
+                    )
+        return names
+
     def enter_operation_definition(self, node):
         if node.operation == "subscription":
-            if len(node.selection_set.selections) != 1:
+            names = self._response_names(node.selection_set.selections, set())
+            if len(names) != 1:
                 if node.name:
                     msg = (
                         'Subscription "%s" must select only one top level field.'
